@@ -19,7 +19,7 @@ RULE = ("the entropy function handed to the library is a recording stream (event
 ASSUMPTIONS = ["the model encodes the anchored mechanism (top bitlen(n-2) bits of bitlen(n-2)//8+1 bytes, +1, reject >= n)",
                "uniformity is derived: equal split of accepted first chunks + fresh bytes after rejection (observed in the log)"]
 REQUIRED = {"quick": ["randrange.enum", "randrange.adversarial", "randrange.rejected_ge2", "generate", "sign.entropy", "sign_digest.entropy",
-                      "sign_number.entropy", "replay_same_stream", "key_then_nonce_disjoint", "seed.trytryagain", "seed.overshoot", "prng", "default_entropy.fork", "concurrent_calls", "reentrant_calls", "entropy_source_fails", "default_entropy.threads", "key_history"]}
+                      "sign_number.entropy", "replay_same_stream", "key_then_nonce_disjoint", "seed.trytryagain", "seed.overshoot", "prng", "default_entropy.fork", "concurrent_calls", "reentrant_calls", "entropy_source_fails", "default_entropy.threads", "key_history", "shared_prng", "os_urandom_model"]}
 EXHAUSTIVE = {"quick": ["randrange: all first chunks for every n in [2,80], n within +-2 of 2^j (j<=12): exact output distribution"],
               "thorough": ["randrange: all first chunks for every n in [2,512], sampled n to 2^12, n within +-2 of 2^j (j<=16)"]}
 
@@ -40,6 +40,8 @@ def shards(tier, seed):
     out.append(("concurrent", dict(kind="concurrent", runs=120 if q else 1500)))
     out.append(("default_entropy", dict(kind="default_entropy", rounds=6 if q else 40)))
     out.append(("failing_source", dict(kind="failing_source")))
+    out.append(("shared_prng", dict(kind="shared_prng", runs=80 if q else 1500)))
+    out.append(("os_urandom_model", dict(kind="os_urandom_model", cnames=["SECP112r2", "NIST192p", "NIST521p", "SECP160r1"] if q else [c.name for c in lib.ALL_CURVES])))
     out.append(("key_history", dict(kind="key_history", cnames=["NIST192p", "SECP112r2", "NIST521p"] if q else [c.name for c in lib.ALL_CURVES])))
     out.append(("default_entropy_threads", dict(kind="default_entropy_threads", runs=60 if q else 800)))
     return out
@@ -275,6 +277,111 @@ def run(ctx, name, kind, **kw):
                     jobs.append((fname, f, (seed, n), f(seed, n)))
         S.concurrent_purity(ctx, S.codes_of(util), jobs, rng, kw["runs"])
         S.reentrant_purity(ctx, S.codes_of(util), jobs, rng, max(12, kw["runs"] // 6))
+    elif kind == "shared_prng":
+        # one util.PRNG object drawn from by 2 threads (token scheduler, a switch possible at every line of util.py): every byte of the
+        # stream goes to exactly one caller - the two outputs are two disjoint subsequences that together make up a prefix of the
+        # stream (or a draw is refused with an exception; a generator that is being advanced refuses a second caller)
+        from vf import sched as S
+        import hashlib as _h
+
+        def stream(seed, nbytes):
+            out, counter = b"", 0
+            while len(out) < nbytes:
+                out += _h.sha256(("prng-%d-%s" % (counter, seed)).encode()).digest()
+                counter += 1
+            return out[:nbytes]
+
+        def splits(a, b, s_):
+            # can s_[:len(a)+len(b)] be split into subsequences a and b (order kept)?
+            n1, n2 = len(a), len(b)
+            reach = {(0, 0)}
+            for _i in range(n1 + n2):
+                nxt = set()
+                for (i, j) in reach:
+                    c = s_[i + j]
+                    if i < n1 and a[i] == c:
+                        nxt.add((i + 1, j))
+                    if j < n2 and b[j] == c:
+                        nxt.add((i, j + 1))
+                reach = nxt
+                if not reach:
+                    return False
+            return (n1, n2) in reach
+        hooks = S.LineHooks()
+        hooks.install(S.codes_of(util.PRNG) + S.codes_of(util, {"randrange", "entropy_to_bits", "bits_and_bytes"}), None)
+        try:
+            for run_i in range(kw["runs"]):
+                seed = "shared-%d" % run_i
+                prng = util.PRNG(seed)
+                sizes = (rng.choice((1, 5, 20, 33)), rng.choice((1, 7, 32, 40)))
+                res = {}
+                s_ = S.Sched(S.random_decider(rng, rng.choice((0.1, 0.3, 0.6))), max_steps=200000)
+
+                def body(i):
+                    def f():
+                        res[i] = prng(sizes[i])
+                    return f
+                for i in range(2):
+                    s_.spawn(body(i), "T%d" % i)
+                hooks.sched = s_
+                ok = s_.run(timeout=30.0)
+                hooks.sched = None
+                excs = [t.exc for t in s_.ts if t.exc is not None]
+                ctx.case("shared_prng", key="%r|%d|%s" % (sizes, min(s_.switches, 8), "refused" if excs else "served"), nontrivial=s_.switches > 2)
+                if not ok or excs:
+                    ctx.count("shared_prng_draw_refused", len(excs))
+                    continue
+                a_, b_ = bytes(res[0]), bytes(res[1])
+                ref = stream(seed, len(a_) + len(b_))
+                ctx.check(len(a_) == sizes[0] and len(b_) == sizes[1] and splits(a_, b_, ref), "prng_bytes_served_twice_or_lost",
+                          "two threads drawing %r bytes from one PRNG(%r): got %s and %s, which do not partition the first %d bytes of its stream %s" % (sizes, seed, a_.hex(), b_.hex(), len(ref), ref.hex()),
+                          dict(seed=seed, sizes=sizes, decisions=s_.decisions[:300]))
+        finally:
+            hooks.uninstall()
+    elif kind == "os_urandom_model":
+        # the draws that take no entropy argument read os.urandom: with that function replaced by a recording stream for the duration of one
+        # call, the value drawn is the model's draw from those bytes (ECDH.generate_private_key has no other way to be observed)
+        import os
+        from ecdsa.ecdh import ECDH
+        real = os.urandom
+        for cname in kw["cnames"]:
+            curve = lib.BY_NAME[cname]
+            n = lib.dom_of(curve).n
+            for entry in ("SigningKey.generate", "ECDH.generate_private_key", "randrange", "sign"):
+                for variant in ("random", "all_ones_then_random", "zeros"):
+                    nb = 8 * (lib.dom_of(curve).nbytes() + 1)
+                    data = {"random": bytes(rng.getrandbits(8) for _ in range(nb)), "all_ones_then_random": b"\xff" * (nb // 4) + bytes(rng.getrandbits(8) for _ in range(nb)),
+                            "zeros": b"\x00" * nb}[variant]
+                    st = sigs.Stream(data)
+                    m = model_randrange(n, data)
+                    os.urandom = st
+                    try:
+                        if entry == "SigningKey.generate":
+                            got = int(ecdsa.SigningKey.generate(curve).privkey.secret_multiplier)
+                        elif entry == "ECDH.generate_private_key":
+                            e_ = ECDH(curve)
+                            e_.generate_private_key()
+                            got = int(e_.private_key.privkey.secret_multiplier)
+                        elif entry == "randrange":
+                            got = util.randrange(n)
+                        else:
+                            d_ = 1 + (n // 3)
+                            sk_ = ecdsa.SigningKey.from_secret_exponent(d_, curve, hashlib.sha256)
+                            r_, s2 = sk_.sign(b"m", sigencode=lambda r, s, o: (r, s))
+                            e2 = ecdsa_ref.digest_to_e(lib.dom_of(curve), hashlib.sha256(b"m").digest(), True)
+                            got = (e2 + r_ * d_) * nt.inv(s2, n) % n
+                        outcome = None
+                    except Exception as ex:
+                        got, outcome = None, "raised %s: %s" % (type(ex).__name__, ex)
+                    finally:
+                        os.urandom = real
+                    if st.pos == 0 and outcome is None:
+                        ctx.count("os_urandom_not_consulted_by_" + entry)      # the library reads the OS generator some other way: nothing to compare
+                        continue
+                    ctx.case("os_urandom_model", key="%s|%s|%s" % (cname, entry, variant), nontrivial=True)
+                    ctx.check(m is not None and outcome is None and got == m[0] and st.pos == m[1], "default_entropy_value_not_the_one_the_bytes_determine",
+                              "%s on %s with os.urandom serving %s...: value %r (%s), the bytes determine %r; consumed %d bytes, model %r" % (entry, cname, data[:12].hex(), got, outcome, m and m[0], st.pos, m and m[1]),
+                              dict(curve=cname, entry=entry))
     elif kind == "key_history":
         # ONE key object signs several times: each nonce is the model's draw from the stream handed to THAT call - whatever the object
         # signed before (same stream content with another message, another stream with the same message, an interleaved failure)
